@@ -641,7 +641,44 @@ def feed(F, R):
     R.floor('C10.feed', 'Publish arms with payload streaming', m, 4)
 
 
+def read_all(F, R):
+    """Payload::read_all on a streamed payload returns Ok only after a read() reported the end of the stream
+    (the None edge of an awaited read), so every buffered piece was collected."""
+    b = F.one(r'^payload::Payload::read_all::\{closure#0\}$')
+    aws = [a for a in await_points(b) if a['callee'] and re.search(r'Receiver.*::read|::read::', a['callee'] or '') or (a.get('awaited') and any('read' in x for x in a['awaited']))]
+    none_edges = []
+    for a in aws:
+        # after Ready: the Option<Result<Bytes, _>> is matched; find the discriminant switch on the ready value
+        reg = b.reachable(a['ready'])
+        for sb in sorted(reg):
+            t = b.blocks[sb]['term']
+            if t['k'] != 'switch':
+                continue
+            p = op_place(t['discr'])
+            if not p:
+                continue
+            for (xb, xs, kind, x) in b.whole_defs(p['l']):
+                if kind == 'assign' and x['rv']['k'] == 'discr':
+                    ty = x['rv'].get('ty') or ''
+                    if ty.startswith('std::option::Option<std::result::Result<ntex_bytes::Bytes'):
+                        for v, tb in t['targets']:
+                            if v == 0:
+                                none_edges.append((sb, tb))
+                        if 0 not in [v for v, _ in t['targets']]:
+                            none_edges.append((sb, t['otherwise']))
+    oks = []
+    for bi, j, s in agg_sites(b, r'^std::result::Result$', 'Ok'):
+        if s['lhs']['l'] == 0 and not place_proj(s['lhs']):
+            oks.append(bi)
+    stream_oks = [bi for bi in oks if any(bi in b.reachable(a['ready']) for a in aws)]
+    R.ob('C10.feed', 'Payload::read_all|stream-read-sites', len(aws) >= 2 and bool(none_edges), 'expected the first read and the loop read of the stream, found %d awaited reads, %d end-of-stream edges' % (len(aws), len(none_edges)), b.loc(0))
+    bad = [bi for bi in stream_oks if not any(edge_dominates(b, sb, tb, bi) for sb, tb in none_edges)]
+    R.ob('C10.feed', 'Payload::read_all|Ok-only-after-end-of-stream', bool(stream_oks) and not bad,
+         'read_all can return the collected bytes before a read() reported the end of the stream: pieces already buffered behind the first one are dropped and a truncated payload is returned as Ok', b.loc(bad[0]) if bad else b.loc(0))
+
+
 def run(F, R):
+    read_all(F, R)
     for ver in ('v5', 'v3'):
         consume_implies_state(F, R, ver)
         ve, arms = state_graph(F, R, ver)
